@@ -17,13 +17,26 @@ inductive Tok where
   | group (id : Nat)            -- a delimited group; its contents are referred to by `id`
 deriving Repr, DecidableEq
 
+/-- `is_punct(tt, ',')`: a comma separates whatever its spacing (a comma directly followed by punctuation is `Joint`:
+`Debug,::logos::Logos`, `"a+",|lex| ..`; the code as found asked for `Alone`, defect D11) -/
 def isComma : Tok → Bool
-  | .punct c true => c == ','
+  | .punct c _ => c == ','
   | _ => false
 
+/-- `=` with spacing `Alone` (`util::is_punct(tt, '=')`): the test of the code as found -/
 def isEq : Tok → Bool
   | .punct c true => c == '='
   | _ => false
+
+/-- `AttributeParser::is_assign`: the `=` of `name = value`.  The spacing tells `=` from `==` and `=>`; a `=` directly
+followed by any other punctuation (`callback=|lex| ..`, `extras=&'a T`, `priority=-1`) still assigns.  The code as found
+used `isEq`, and `name=<punctuation>..` became a positional callback or an invalid item (defect D13). -/
+def isAssign : Tok → Option Tok → Bool
+  | .punct c alone, next =>
+    c == '=' && (alone || match next with
+      | some (.punct d _) => !(d == '=' || d == '>')
+      | _ => true)
+  | _, _ => false
 
 inductive Value where
   | assign (toks : List Tok)
@@ -70,7 +83,7 @@ def nextNested (consumeAfterGroup : Bool) : List Tok → Option (Nested × List 
       match nextTt rest with
       | (none, rest') => some (.unnamed [.ident name], rest')
       | (some tt, rest') =>
-        if isEq tt then
+        if isAssign tt rest'.head? then
           let r := collectTail rest'
           some (.named name (.assign r.1), r.2)
         else match tt with
@@ -88,7 +101,7 @@ def nextNested (consumeAfterGroup : Bool) : List Tok → Option (Nested × List 
               let r := collectTail rest''
               some (.named name (.keywordAssign nxt r.1), r.2)
             | (some e, rest'') =>
-              if isEq e then
+              if isAssign e rest''.head? then
                 let r := collectTail rest''
                 some (.named name (.keywordAssign nxt r.1), r.2)
               else
@@ -98,6 +111,9 @@ def nextNested (consumeAfterGroup : Bool) : List Tok → Option (Nested × List 
             let r := collectTail rest'
             some (.unnamed (.ident name :: other :: r.1), r.2)
     | tt =>
+      -- an argument left empty (`"a", , priority = 3`): reported; the code as found took what follows the comma for a
+      -- positional callback (defect D12)
+      if isComma tt then some (.unexpected [tt], rest) else
       let r := collectTail rest
       some (.unnamed (tt :: r.1), r.2)
 
@@ -137,7 +153,9 @@ theorem nextNested_length {c : Bool} {ts : List Tok} {n : Nested} {rest : List T
               simp only at h h2
               split at h <;> (simp at h; obtain ⟨_, rfl⟩ := h; have := hct r2; simp; omega)
           · simp at h; obtain ⟨_, rfl⟩ := h; have := hct r1; simp; omega
-    · simp at h; obtain ⟨_, rfl⟩ := h; have := hct tl; simp; omega
+    · split at h
+      · simp at h; obtain ⟨_, rfl⟩ := h; simp
+      · simp at h; obtain ⟨_, rfl⟩ := h; have := hct tl; simp; omega
 
 /-- the whole iterator -/
 def allNested (c : Bool) (ts : List Tok) : List Nested :=
